@@ -4,7 +4,9 @@ import json
 from vlib import core
 
 PKG = "./lib/store/sqlx"
-OVERLAY = {"lib/store/sqlx/zz_verif_c11_test.go": "c11/sqlx_test.go"}
+OVERLAY = {"lib/store/sqlx/zz_verif_c11_test.go": "c11/sqlx_test.go",
+           # in-package observation point: counts the Commit()/Rollback() calls made on the Conn's transaction handles
+           "lib/store/sqlx/zz_verif_c11_export_test.go": "c11/export_test.go"}
 RUN = "^TestVerifC11$"
 W = 6
 
@@ -17,19 +19,24 @@ META = dict(
          "the Ctx entry points is live, already cancelled, already expired, or cancelled by the body (a manager may "
          "refuse a dead context only before beginning, or skip the body and roll back). "
          "TxImpl.tla models the deferred function of transactOnConn (recover branch empty / rollback / re-raise) "
+         "and how the branches hang together (else-if chain / separate statements) "
          "against the same predicates (lead only). The "
-         "caller's result class and the Commit/Rollback calls that reached the database driver are compared with "
+         "caller's result class, the Commit/Rollback calls that reached the database driver AND the Commit()/Rollback() calls the "
+         "manager made on its transaction handle (a finished *sql.Tx answers a second call by itself, so only the second count "
+         "tells one Rollback from two; a result wrapping sql.ErrTxDone is judged the same way) are compared with "
          "the specification. spec/RowMap.tla enumerates destination shapes (scalars, structs of 1-3 fields, "
-         "tagged/untagged, pointer fields, embedded value/pointer structs holding 1 or 2 of the leaf fields, *T, *[]T, *[]*T, slices already holding 0-2 elements) x result sets (all "
+         "tagged/untagged, tag spellings db:\"c\" / db:\"c,type=..,length=..\" / db:\"c,\" / mixed (the column is named by the element before the first comma), pointer fields, embedded value/pointer structs holding 1 or 2 of the leaf fields, *T, *[]T, *[]*T, slices already holding 0-2 elements) x result sets (all "
          "column orders of all column subsets, an extra column, NULL, 0/1/3 rows) x strict/partial with the SET of "
          "outcomes the statement allows; every case is executed by QueryRow(s)(Partial) through a Conn, a "
          "transaction session, a prepared statement and sqlc's NoCache pass-through.",
-    note="Trusted: TLC, sqlmock, database/sql, the driver's counting wrapper around the sqlmock connection. "
+    note="Trusted: TLC, sqlmock, database/sql, the driver's counting wrapper around the sqlmock connection, the counting "
+         "wrapper around the handles of commonConn.beginTx (overlaid export file). "
          "Not covered: ErrBadConn retries of database/sql, a context dying while a statement is in flight, nested transactions, the breaker "
          "tripping (fresh Conn per behaviour, <= 4 calls), bulk inserter, sqlc's cached query paths. The statement "
          "is silent on (so both outcomes are allowed or the case is not generated): result error text when the "
          "Rollback itself fails, NULL arriving in a field (error or zero), tagged fields inside an embedded struct "
-         "(by name or by position), untagged structs with more columns than fields (not generated), whether a non-empty destination slice is appended to or replaced (both allowed), scalar "
+         "(by name or by position), untagged structs with more columns than fields (not generated), tags whose name element is empty (db:\",opt\") or \"-\" (to orm.go \"-\" is an ordinary column name; not generated), "
+         "structs mixing tagged and untagged fields (not generated), option-carrying tags meet only empty slices (and, in the quick tier, only pointer-free shapes), whether a non-empty destination slice is appended to or replaced (both allowed), scalar "
          "destinations with several columns (not generated).",
     technique="TLA+ specs (Tx, RowMap) + TLC-enumerated behaviours/cases replayed on the real sqlx over sqlmock",
     design="4/C11")
@@ -40,10 +47,11 @@ FINISH = dict(rule="transactions: complete TLC enumeration (BFS over the history
                    "every call / every query of every case is compared with the specification")
 
 TX_INV = ["TypeOK", "NilMeansCommitted", "ElseRolledBack", "CommitIffNil", "OneEnding", "NoDangling", "NoTxNoEnd",
-          "BegunIsEnded", "FailureIsReported"]
+          "BegunIsEnded", "FailureIsReported", "OneEndingCall", "CallsReachDriver"]
 ROW_INV = ["OrderIndependent", "ExtraIgnored", "StrictNeverPartial", "StrictCountsLeafFields", "PrefilledSameVerdict", "EmptyIsNotFound",
-           "FieldsComeFromTheirColumns", "NeverEmpty"]
-IMPL_INV = ["NilMeansCommitted", "ElseRolledBack", "FailureIsReported", "NoDangling", "OneEnding"]
+           "FieldsComeFromTheirColumns", "TagOptionsIgnored", "NeverEmpty"]
+IMPL_INV = ["NilMeansCommitted", "ElseRolledBack", "FailureIsReported", "NoDangling", "OneEnding", "OneEndingCall"]
+TAG_STYLES = ["plain", "opts", "comma", "mixed"]
 CTX = dict(Ctxs='{"live","cancelled","expired","bodycancel"}', CtxApis='{"TransactCtx","CachedTransactCtx"}')
 APIS4 = '{"Transact","TransactCtx","CachedTransact","CachedTransactCtx"}'
 
@@ -56,13 +64,18 @@ def mc(ctx):
     # mechanism-shaped model of transactOnConn's deferred function: which shapes of the recover branch keep
     # the atomicity predicates (a lead / a sanity check of the repair, never a verdict)
     leads = {}
-    for br in ("rollback", "reraise", "empty"):
-        K2 = dict(RecoverBranch='"%s"' % br)
+    for br, chain in (("rollback", "chained"), ("reraise", "chained"), ("empty", "chained"),
+                      ("rollback", "split"), ("reraise", "split")):
+        K2 = dict(RecoverBranch='"%s"' % br, Chain='"%s"' % chain)
         cfg = core.render_cfg(spec="Spec", constants=K2, invariants=IMPL_INV)
-        r = ctx.tlc("TxImpl", cfg, constants=K2, name="TxImpl-" + br, workers=2, allow_violation=True)
-        leads[br] = r.violated or "holds"
-    if leads["rollback"] != "holds" or leads["reraise"] != "holds":
+        r = ctx.tlc("TxImpl", cfg, constants=K2, name="TxImpl-%s-%s" % (br, chain), workers=2, allow_violation=True)
+        leads[br + "/" + chain] = r.violated or "holds"
+    if any(leads[k] != "holds" for k in ("rollback/chained", "reraise/chained", "reraise/split")):
         raise core.Infra("TxImpl: a repaired recover branch violates %s" % leads)
+    # the session layer must be able to tell: with separate statements a recovered panic is rolled back twice,
+    # which no driver-level predicate notices
+    if leads["rollback/split"] != "OneEndingCall":
+        raise core.Infra("TxImpl: the split chain is expected to violate exactly OneEndingCall, got %s" % leads)
     ctx.notes["TxImpl_recover_branch"] = leads
 
 
@@ -76,15 +89,19 @@ def tx_gen(ctx, name, simulate=None, **K):
 
 
 def row_consts(ctx, thorough_part=None):
+    styles = "{%s}" % ",".join('"%s"' % x for x in TAG_STYLES)
     if ctx.quick:
-        return dict(MaxF=3, RowCounts="{0,1,3}", PtrSets='"few"', Dests='{"one","vals","ptrs"}', Pres="{0,1}")
-    return dict(MaxF=3, RowCounts="{0,1,2,3}", PtrSets='"all"', Dests='{"one","vals","ptrs"}', Pres="{0,1,2}")
+        return dict(MaxF=3, RowCounts="{0,1,3}", PtrSets='"few"', Dests='{"one","vals","ptrs"}', Pres="{0,1}",
+                    TagStyles=styles, StyleCross='"none"')
+    return dict(MaxF=3, RowCounts="{0,1,2,3}", PtrSets='"all"', Dests='{"one","vals","ptrs"}', Pres="{0,1,2}",
+                TagStyles=styles, StyleCross='"ptrs"')
 
 
 def run(ctx):
     mc(ctx)
     binp = ctx.go_build(PKG, OVERLAY, name="c11drv")
     ctx.exhaustive = True
+    first_err = None   # a harness problem never hides a disagreement that was observed on the code
 
     # ---- transactions
     plans = [("tx1", dict(MaxStmts=2, MaxCalls=1, Apis=APIS4, Kinds='{"exec","query"}'))]
@@ -101,7 +118,10 @@ def run(ctx):
         cases = tx_gen(ctx, name, simulate=((400 if ctx.quick else 8000) if name == "tx4sim" else None), **K)
         path, n = ctx.write_cases(name + ".ndjson", cases)
         ctx.samples += core.sample_of(cases, 1)
-        ctx.replay(PKG, OVERLAY, RUN, path, label=name, shards=8, binp=binp)
+        try:
+            ctx.replay(PKG, OVERLAY, RUN, path, label=name, shards=8, binp=binp)
+        except core.Infra as e:
+            first_err = first_err or e
 
     # ---- row mapping
     K = row_consts(ctx)
@@ -112,18 +132,40 @@ def run(ctx):
     cases = ctx.tlc("RowMapGen", cfg, constants=K, name="rowmap", workers=W, timeout=900).printed
     path, n = ctx.write_cases("rowmap.ndjson", cases)
     ctx.samples += core.sample_of(cases, 2)
-    cnt, _ = ctx.replay(PKG, OVERLAY, RUN, path, label="rowmap", shards=16, binp=binp)
+    cnt = {}
+    try:
+        cnt, _ = ctx.replay(PKG, OVERLAY, RUN, path, label="rowmap", shards=8, binp=binp)
+    except core.Infra as e:
+        first_err = first_err or e
+    if first_err is not None:
+        if not ctx.disagreements:
+            raise first_err
+        ctx.notes["harness_problem_besides_disagreement"] = str(first_err)[:600]
+    if not ctx.disagreements:
+        vacuity(ctx, cnt)
+    ctx.assumptions += [
+        "database/sql forwards the first Commit/Rollback of a *sql.Tx to the driver and answers later ones with ErrTxDone "
+        "(which is why ending calls are also counted on the transaction handle itself)",
+        "fresh sqlx.Conn (fresh breaker) per behaviour; at most 4 Transact calls, so the breaker never rejects"]
+    ctx.notes["bounds"] = dict(tx=[p[1] for p in plans], rowmap=K)
+
+
+def vacuity(ctx, cnt):
+    """Coverage the run must have had (evaluated only when no disagreement was found)."""
     if not cnt.get("rowmap.prefilled"):
         raise core.Infra("vacuous: no query into an already filled slice was replayed")
     if not cnt.get("rowmap.strict-fewer-than-leaf-fields"):
         raise core.Infra("vacuous: no strict case with fewer columns than leaf fields of an embedded struct was replayed")
+    for st in TAG_STYLES:
+        if not cnt.get("rowmap.tags-" + st):
+            raise core.Infra("vacuous: no tagged destination with tag spelling %s was replayed" % st)
     for k in ("ctx-cancelled", "ctx-expired", "ctx-bodycancel"):
         if not ctx.counters.get("tx1.tx." + k):
             raise core.Infra("vacuous: no transaction with context scenario %s was judged" % k)
-    ctx.assumptions += [
-        "database/sql forwards exactly one driver Commit/Rollback per Tx.Commit/Tx.Rollback (later calls end in ErrTxDone)",
-        "fresh sqlx.Conn (fresh breaker) per behaviour; at most 4 Transact calls, so the breaker never rejects"]
-    ctx.notes["bounds"] = dict(tx=[p[1] for p in plans], rowmap=K)
+    # every transaction that reached the driver was also seen at the session layer
+    if not ctx.counters.get("tx1.tx.handle-rollback-calls") or not ctx.counters.get("tx1.tx.handle-commit-calls"):
+        raise core.Infra("vacuous: the Commit()/Rollback() calls on the transaction handle were never observed "
+                         "(the beginTx wrapper of harness/c11/export_test.go is not in the path)")
 
 
 def replay(ctx, rp):
